@@ -48,6 +48,39 @@ fn main() {
                 println!("debug={debug}: {}", out.brief());
             }
         }
+        Some("debug-prune") => {
+            use simfony::parse::ParseFromStr;
+            use simfony::simplicity::dag::{DagLike, InternalSharing};
+            use simfony::simplicity::node::Inner;
+            let text = std::fs::read_to_string(&args[2]).expect("program file");
+            let wits = simfony::WitnessValues::parse_from_str(&std::fs::read_to_string(&args[3]).expect("witness file")).expect("witness module");
+            let lt: u32 = args[4].parse().unwrap();
+            let env = simfony::dummy_env::dummy_with(simfony::elements::LockTime::from_consensus(lt), simfony::elements::Sequence::ZERO, false);
+            let c = simfony::CompiledProgram::new(text.as_str(), simfony::Arguments::default(), false).expect("compile");
+            for pruned in [false, true] {
+                let s = c.satisfy_with_env(wits.shallow_clone(), if pruned { Some(&env) } else { None });
+                let s = match s { Ok(s) => s, Err(e) => { println!("pruned={pruned}: satisfy error {e}"); continue; } };
+                let r = s.redeem();
+                println!("pruned={pruned}: nodes");
+                let dump = |node: &simfony::simplicity::RedeemNode<simfony::simplicity::jet::Elements>| {
+                    for item in node.post_order_iter::<InternalSharing>() {
+                        match item.node.inner() {
+                            Inner::Witness(v) => println!("   witness {} : {}", v, item.node.arrow().target),
+                            Inner::AssertL(_, c) => println!("   assertl hidden {c}"),
+                            Inner::AssertR(c, _) => println!("   assertr hidden {c}"),
+                            Inner::Case(..) => println!("   case"),
+                            _ => {}
+                        }
+                    }
+                };
+                dump(r);
+                let (pb, wb) = r.encode_to_vec();
+                println!("   witness bytes {:?}", wb);
+                let d = simfony::simplicity::RedeemNode::<simfony::simplicity::jet::Elements>::decode(simfony::simplicity::BitIter::from(pb.into_iter()), simfony::simplicity::BitIter::from(wb.into_iter()));
+                match d { Ok(d) => { println!("  decoded:"); dump(&d); println!("   exec decoded: {:?}", vcheck::pipe::exec(&d, &env)); } Err(e) => println!("  decode error {e}") }
+                println!("   exec in-memory: {:?}", vcheck::pipe::exec(r, &env));
+            }
+        }
         Some("__shard") => {
             // __shard <prop> <stream> <tier> <seed> <shard> <nshards> <trace>
             let p = props.iter().find(|p| p.id == args[2]).expect("property");
